@@ -2,6 +2,7 @@ package seq
 
 import (
 	"fmt"
+	"math"
 	"sort"
 	"testing"
 
@@ -373,6 +374,69 @@ func init() {
 				return before, fmt.Sprint(r.AsArray()), w
 			}},
 		)
+	}
+	// sets of floats: +0.0 is a member, and -0.0 (the same member under every collator, but another value)
+	// is added afterwards -- a set that stores the newcomer over the old value writes into whatever array
+	// the member lives in
+	floatsN := func(size int) []float64 {
+		out := []float64{0}
+		for i := 1; i < size; i++ {
+			out = append(out, float64(i)-2.5)
+		}
+		return out
+	}
+	negZero := math.Copysign(0, -1)
+	addEqual := func(s col.SetLike[float64]) {
+		s.AddValue(negZero)
+		s.AddValues(col.List[float64](n).MakeFromArray([]float64{negZero, negZero}))
+	}
+	for _, op := range []string{"And", "Or", "Sans", "Xor", "MakeFromSequence"} {
+		op := op
+		apply := func(a, b col.SetLike[float64]) col.SetLike[float64] {
+			S := col.Set[float64](n)
+			switch op {
+			case "And":
+				return S.And(a, b)
+			case "Or":
+				return S.Or(a, b)
+			case "Sans":
+				return S.Sans(a, b)
+			case "Xor":
+				return S.Xor(a, b)
+			}
+			return S.MakeFromSequence(a)
+		}
+		for _, second := range []string{"disjoint", "same-values", "empty"} {
+			second := second
+			mk := func(size int) (col.SetLike[float64], col.SetLike[float64]) {
+				S := col.Set[float64](n)
+				a := S.MakeFromArray(floatsN(size))
+				switch second {
+				case "disjoint":
+					return a, S.MakeFromArray([]float64{100, 101})
+				case "same-values":
+					return a, S.MakeFromArray(floatsN(size))
+				}
+				return a, S.Make()
+			}
+			aliasEntries = append(aliasEntries,
+				aliasEntry{"Set[float64]." + op + "(a, " + second + ")/add-equal-value-to-result", func(size, pos int) (string, string, bool) {
+					a, b := mk(size)
+					r := apply(a, b)
+					before := fmt.Sprint(a.AsArray(), b.AsArray())
+					addEqual(r)
+					return before, fmt.Sprint(a.AsArray(), b.AsArray()), size > 0
+				}},
+				aliasEntry{"Set[float64]." + op + "(a, " + second + ")/add-equal-value-to-operand", func(size, pos int) (string, string, bool) {
+					a, b := mk(size)
+					r := apply(a, b)
+					before := fmt.Sprint(r.AsArray())
+					addEqual(a)
+					addEqual(b)
+					return before, fmt.Sprint(r.AsArray()), size > 0
+				}},
+			)
+		}
 	}
 	// associative kinds
 	for _, kind := range []string{"Catalog", "Map"} {
